@@ -663,7 +663,8 @@ def g_silent(ctx: Ctx) -> Op:
     outputs = ch.shuffled(outs, "sp.shuffle")
     cls = "valid"
     if ch.chance(1, 2, "sp.scan.hostile?"):
-        common = ["off-curve-taproot-output", "foreign-output", "duplicate-output", "no-outputs", "output-31-bytes", "output-33-bytes"]
+        common = ["off-curve-taproot-output", "foreign-output", "duplicate-output", "no-outputs", "output-31-bytes", "output-33-bytes",
+                  "two-outputs-at-one-counter", "two-outputs-at-one-counter"]
         only_tx = ["odd-y-taproot-input-key", "input-keys-sum-to-infinity", "no-outpoints", "no-inputs", "input-key-off-curve", "input-key-hybrid",
                    "input-key-sec-octets", "scan-key-zero", "scan-key-n", "spend-key-infinity", "spend-key-off-curve"]
         cls = ch.pick(common + (only_tx if kind == "scan_transaction_outputs" else []), "sp.scan.cls")
@@ -678,6 +679,17 @@ def g_silent(ctx: Ctx) -> Op:
             outputs.insert(ch.draw(len(outputs) + 1, "sp.pos"), extra)
         if cls == "no-outputs":
             outputs = []
+        elif cls == "two-outputs-at-one-counter":
+            # a dishonest sender: the scanning wallet's plain address and one of its labelled addresses are both
+            # paid at counter k = 0 (an honest sender gives every output of a scan key its own k); which of the
+            # two a scan reports first is decided by the order of the outputs, on either arm
+            w0 = wallets[0]
+            m = ch.draw(3, "sp.same-k.label")
+            plain = need(ctx, Op("silent_payments.output_keys", "valid", lambda: sp.output_keys(prv_keys, outpoints, [sp.address_from_keys(H.mult(w0[0]), H.mult(w0[1]))])))
+            labelled = need(ctx, Op("silent_payments.output_keys", "valid", lambda: sp.output_keys(prv_keys, outpoints, [sp.labeled_address_from_keys(w0[0], H.mult(w0[1]), m)])))
+            outputs = ch.shuffled([labelled[0], plain[0]] + (outputs[:1] if ch.draw(2, "sp.same-k.decoy") else []), "sp.same-k.order")
+            if labels is None:
+                labels = need(ctx, Op("silent_payments.label_lookup", "valid", lambda: sp.label_lookup(b_scan, [0, 1, 2])))
         elif cls == "odd-y-taproot-input-key":
             pub_keys = [((Q if Q[1] % 2 else secp256k1.negate(Q)) if k == "p2tr" else Q, s) for (_, Q, k), (_, s) in zip(ins, prv_keys)]
             if all(k != "p2tr" for _, _, k in ins):
